@@ -5,6 +5,8 @@ from pathlib import Path
 
 from pddl_plus_parser.lisp_parsers import PDDLTokenizer
 
+from c11_util import digest, expand_segs, expand_toks, flatten_iter
+
 TMP = Path(os.environ.get("VERIF_WORK", "/verif/work")) / "C11" / "tmp"
 
 
@@ -36,3 +38,78 @@ def facts(job):
     lower = [i for i in range(128) if chr(i).lower() != chr(i)]
     lower_ok = all(chr(i).lower() == chr(i + 32) for i in range(65, 91))
     return {"isspace": ws, "split": split_ws, "lower_changes": lower, "lower_ok": lower_ok}
+
+
+def _write(path, data, how="overwrite"):
+    """puts `data` (bytes) at `path`: 'overwrite' truncates and rewrites the existing file (same inode),
+    'replace' writes a sibling and renames it over the path, 'recreate' unlinks first."""
+    if how == "replace":
+        tmp = path.with_suffix(".new")
+        tmp.write_bytes(data)
+        os.replace(tmp, path)
+        return
+    if how == "recreate" and path.exists():
+        path.unlink()
+    with open(path, "wb") as fh:
+        fh.write(data)
+
+
+def parse_big(job):
+    """LARGE input given as segments [(block, repetitions)]; the observable is the digest of the returned
+    tree's token stream (c11_util.digest, the same fold as Corr.C11.digest).  When the generator's expected
+    token stream is supplied (same segment form) the first difference is located for the replay file."""
+    text = expand_segs(job["segs"])
+    if job["file"]:
+        TMP.mkdir(parents=True, exist_ok=True)
+        fd, name = tempfile.mkstemp(dir=str(TMP), suffix=".pddl")
+        try:
+            with os.fdopen(fd, "wb") as fh:
+                fh.write(text.encode("latin-1"))
+            tree = PDDLTokenizer(file_path=Path(name)).parse()
+        finally:
+            os.unlink(name)
+    else:
+        tree = PDDLTokenizer(pddl_str=text).parse()
+    toks = flatten_iter(tree)
+    out = {"ok": digest(toks), "chars": len(text)}
+    if job.get("expect_toks") is not None:
+        exp = expand_toks(job["expect_toks"])
+        n = min(len(exp), len(toks))
+        k = next((i for i in range(n) if exp[i] != toks[i]), None)
+        if k is None and len(exp) != len(toks):
+            k = n
+        if k is not None:
+            out["first_difference"] = {"token_index": k, "expected": exp[max(0, k - 2):k + 3], "got": toks[max(0, k - 2):k + 3],
+                                       "expected_tokens": len(exp), "got_tokens": len(toks)}
+    return out
+
+
+def sequence(job):
+    """A call SEQUENCE in one process: each step puts a text at a path (or leaves the file as it is) and reads it
+    with a fresh PDDLTokenizer, or reads a string.  One result per step: what parse() returned / raised for the
+    text that is at the path AT THAT MOMENT."""
+    TMP.mkdir(parents=True, exist_ok=True)
+    base = tempfile.mkdtemp(dir=str(TMP), prefix="seq_")
+    out = []
+    paths = set()
+    try:
+        for st in job["steps"]:
+            try:
+                if st["file"]:
+                    path = Path(base) / st["path"]
+                    paths.add(path)
+                    if st.get("write", True):
+                        _write(path, st["text"].encode(st.get("encoding", "latin-1")), st.get("how", "overwrite"))
+                    out.append({"ok": show(PDDLTokenizer(file_path=path).parse())})
+                else:
+                    out.append({"ok": show(PDDLTokenizer(pddl_str=st["text"]).parse())})
+            except RecursionError:
+                out.append({"raised": "RecursionError", "msg": ""})
+            except Exception as e:  # noqa
+                out.append({"raised": type(e).__name__, "msg": str(e)[:200]})
+    finally:
+        for p in paths:
+            if p.exists():
+                p.unlink()
+        os.rmdir(base)
+    return {"steps": out}
